@@ -24,6 +24,12 @@ TStep == \/ /\ Ev.op = "write" /\ IF Mode = "contract" THEN WriteCore(Ev.d) /\ A
             /\ UNCHANGED rb
          \/ /\ Ev.op = "reopen" /\ IF Mode = "contract" THEN ReopenCore /\ Adopt ELSE Reopen /\ Same
             /\ UNCHANGED rb
+         \* close() that RAISES (the final commit could not be made: the file is locked by a reader): nothing has happened, the
+         \* writer is still open and can be closed again
+         \/ /\ Ev.op = "closefail" /\ UNCHANGED core /\ (IF Mode = "contract" THEN Adopt ELSE (UNCHANGED <<ccols, crows>> /\ Same))
+            /\ UNCHANGED rb
+         \/ /\ Ev.op = "badwrite" /\ IF Mode = "contract" THEN FailedWriteCore(Ev.d) /\ Adopt ELSE FailedWrite(Ev.d) /\ Same
+            /\ UNCHANGED rb
          \/ /\ Ev.op = "writes" /\ IF Mode = "contract" THEN WriteManyCore(Ev.d, Ev.n) /\ Adopt ELSE WriteManyCore(Ev.d, Ev.n) /\ WriteManyVis(Ev.d, Ev.n) /\ Same
             /\ UNCHANGED rb
          \/ /\ Ev.op = "crash" /\ IF Mode = "contract" THEN Adopt /\ CrashCore ELSE Crash /\ Same
